@@ -1,7 +1,7 @@
 #!/bin/sh
 # usage: tools/run_seeded.sh <dir-with-<pid>/<variant>/patch.diff> [pid ...]
 # applies every seeded change to /repo in turn, runs the property's quick check, reverts.
-base=${1:-/verif/seeded}; shift
+base=$(readlink -f ${1:-/verif/seeded}); shift
 cd /verif
 pids=${*:-$(ls $base)}
 for pid in $pids; do
